@@ -1252,6 +1252,15 @@ func (s *BgpServer) handleRouteRefresh(peer *peer, e *fsmMsg) {
 	}
 	rfList := []bgp.Family{rf}
 	s.getBestFromLocalCallback(peer, rfList, true, true, func(paths []*table.Path, filtered []*table.Path) {
+		// withdraw what was advertised earlier and is rejected now (as softResetOut does)
+		withdrawals := make([]*table.Path, 0, len(filtered))
+		for _, path := range filtered {
+			if path == nil || path.IsEOR() || !peer.IsFamilyEnabled(path.GetFamily()) || !peer.hasPathAlreadyBeenSent(path) {
+				continue
+			}
+			withdrawals = append(withdrawals, path.Clone(true))
+		}
+		paths = append(withdrawals, paths...)
 		if len(paths) > 0 {
 			peer.updateRoutes(paths...)
 			sendfsmOutgoingMsg(peer, paths)
